@@ -484,6 +484,15 @@ namespace occa {
       return ref->toJson(j, name);
     }
 
+    // Registered builtins (including vector types such as float2) go by name
+    if (registered && (&dtype_t::getBuiltin(name_) == this)) {
+      j.clear();
+      j.asObject();
+      j["type"] = "builtin";
+      j["name"] = name_;
+      return;
+    }
+
     if (enum_) {
       return enum_->toJson(j, name);
     } else if (struct_) {
